@@ -221,6 +221,9 @@ pub fn alphabet(n: usize, c: &AlphaCfg) -> Vec<Dev> {
             true
         }));
     }
+    if c.generics {
+        devs.extend(crate::devs::rich_generic_devs(true));
+    }
     if c.resize {
         devs.push(dev("N-1", &["size"], |s| {
             if s.variants.is_empty() {
